@@ -54,7 +54,14 @@ def replay_case(arg):
             mo[int(rng.integers(n))] = -round(0.5 * par[0] / par[1], 4) if (kind == 'C' and rec['cls'] != '-inf') else -0.2
         obs = np.round(rng.uniform(0.5, 3.0, size=n), 3) * (1e3 if mag.endswith('large') else 1e-3 if mag.endswith('small') else 1.0)
         S = np.round(rng.uniform(-1, 1, size=(n, p)), 3)
-        par_in, mo_in, obs_in, S_in = np.array(par), mo.copy(), obs.copy(), S.copy()
+        # the caller's buffers are allocated ONCE per case and refilled in place for every repetition (a preallocated
+        # array in a loop): the result depends on the content handed over, not on the identity of the object
+        if rep == 0:
+            par_in, mo_in, obs_in, S_in = np.array(par, dtype=float), mo.copy(), obs.copy(), S.copy()
+        else:
+            par_in[...], mo_in[...], obs_in[...] = np.array(par, dtype=float), mo, obs
+            if S.size:
+                S_in[...] = S
         with warnings.catch_warnings():
             warnings.simplefilter('error', RuntimeWarning)
             try:
